@@ -1215,6 +1215,17 @@ def check_C10(run):
         if ans != 'send-failed' and ans != want:
             oracle_fail.append(dict(layer='link', request_line=l_, oversize_message_bytes=size, delivered_to_doer=td, delivered_to_boss=tb, impl=ans, oracle_expects=want + ' (or the sender refuses the message)'))
 
+    # the way a doer process ends: responses still queued when the boss's Shutdown arrives, then one final message sent after the threads were
+    # joined (shutdown_with_final_message_sent_after_threads_joined), over a network that reads slowly: every frame has its own nonce
+    fl = [f'linkfinal {key} {n_} {sz_}' for n_, sz_ in ([(12, 1000000), (40, 300000), (3, 10), (60, 70000), (200, 500), (1000, 40), (30, 20000)] if not thorough else [(12, 1000000), (40, 300000), (3, 10), (60, 70000), (200, 5000), (6, 4200000), (25, 1500000)])]
+    fans = [a for a, _ in C.run_harness(fl, timeout=1800)]
+    for l_, ans in zip(fl, fans):
+        run.case(('linkfinal', l_), True, sample=dict(layer='link', what='shutdown with a backlog and a final message', request=l_.split(' ', 2)[2], impl=ans) if l_ == fl[0] else None)
+        run.count('link:final-message:' + ans.split(' reuse=')[-1]); run.cov['traces_validated_against_impl'] += 1
+        n_ = int(l_.split()[2])
+        if ans != f'frames={n_ + 1} of={n_ + 1} reuse=0':
+            oracle_fail.append(dict(layer='link', request_line=l_, impl=ans, oracle_expects=f'frames={n_ + 1} of={n_ + 1} reuse=0 (every queued response and the final message arrive, no two frames under one key and nonce)'))
+
     def on_broken(failed):
         if oracle_fail:
             o = min(oracle_fail, key=lambda o: len(o['request_line']))
